@@ -46,6 +46,7 @@ struct FileSpec
 {
     std::string path, dir, modelName;
     int servedVersion = -1; // set by the reference resolver: which version of the file this is (a library model and the file on disk may differ)
+    bool rawDirSet = false;
     std::string rawUrl, rawDir; // set by the reference resolver: the URL exactly as the importer spells it (base + href, not normalised) - that spelling is the library key
     std::vector<UnitsSpec> units;
     std::vector<CompSpec> comps;
@@ -86,6 +87,10 @@ struct GraphParams
 bool isStandardUnit(const std::string &n);
 std::string normalisePath(const std::string &p);
 std::string hrefBetween(const std::string &fromDir, const std::string &toPath);
+// Port of the importer's own path arithmetic (the exact spelling is the library key): resolvePath() and normalisePath().
+std::string libraryResolvePath(const std::string &filename, const std::string &base);
+std::string libraryNormaliseBase(const std::string &basePath);
+std::string relativeDir(const std::string &fromDir, const std::string &toDir); // toDir as seen from fromDir ("", "../", "../b/", ...)
 Graph generateGraph(sim::Rng &rng, const GraphParams &gp);
 
 // The enumerated family of small graphs (2-3 files): every combination of directory layout, what the root imports,
@@ -169,6 +174,8 @@ public:
     std::map<std::string, int> current; // normalised path -> version id
     std::vector<FileVersion> versions;
     std::vector<OpenRecord> log;
+    std::string cwd = "/w/"; // the simulated process's working directory: relative URLs are opened relative to it
+    std::string absolute(const std::string &url) const; // normalised absolute path of a URL as the file layer sees it
     std::function<void(size_t openIndex)> onOpen; // scheduler yield point: the filesystem operator may run here
     size_t opensThisCall = 0;
     std::vector<std::unique_ptr<std::streambuf>> buffers;
